@@ -17,7 +17,7 @@ ENG = os.path.join(VERIF, 'engine')
 HAR = os.path.join(VERIF, 'harness')
 sys.path.insert(0, HAR)
 
-CLANG_FLAGS = ['-std=c++17', '-O1', '-fno-vectorize', '-fno-slp-vectorize', '-fno-unroll-loops', '-mllvm', '-inline-threshold=100000',
+CLANG_FLAGS = ['-std=c++17', '-O1', '-fno-vectorize', '-fno-slp-vectorize', '-fno-unroll-loops', '-mllvm', '-inline-threshold=100000', '-mllvm', '-simplifycfg-sink-common=false',
                '-Wno-everything', '-I' + os.path.join(REPO, 'include'), '-I' + ENG, '-I' + HAR]
 
 
